@@ -109,12 +109,14 @@ type c13G41 struct {
 	Xs    []c13In
 	D, B  c13In
 	yield bool
+	fail  int // > 0: Process() returns an ERROR (next to another value) whenever the mixed value is divisible by it (c13_shared.go)
 }
 type c13G20 struct {
 	B     c13In
 	yield bool
 	A     c13In
 	salt  int
+	fail  int
 }
 type c13P41 struct {
 	Xs    []c13In
@@ -136,10 +138,10 @@ type c13P20 struct {
 }
 
 func (t c13G41) Process() (int, error) {
-	return c13mix(t.salt, t.yield, []c13In{t.A, t.B, t.C, t.D}, [][]c13In{t.Xs}), nil
+	return c13Failing(c13mix(t.salt, t.yield, []c13In{t.A, t.B, t.C, t.D}, [][]c13In{t.Xs}), t.fail)
 }
 func (t c13G20) Process() (int, error) {
-	return c13mix(t.salt, t.yield, []c13In{t.A, t.B}, nil), nil
+	return c13Failing(c13mix(t.salt, t.yield, []c13In{t.A, t.B}, nil), t.fail)
 }
 func (t c13P41) Process() (artifact.Artifact, error) {
 	t.pgate.pass(0)
@@ -175,6 +177,11 @@ type c13Desc struct {
 	name  string // producer name ("" = p / p1 / p10 / art<i>.txt)
 	mode  int    // 0 = c13Art; c13ModeRows = many-row artifact; c13ModeBroken = artifact whose Write fails; c13ModeImage = basics.Image
 	rowsN int    // rows: number of rows; image: side length in pixels
+	// families of c13_shared.go
+	fail  int  // interior struct node: Process() returns an error when its mixed value is divisible by fail (model node `E salt fail ...`)
+	typ   int  // parameter: 0 = parameter.Value[int]; c13T* = typed parameter (value = encoding of the code `def`)
+	ident bool // struct over ONE input sc[0], model node `B` (identity): adapter typed value -> int code, keeper / stl artifact producer
+	stlrd bool // the repo's stl.ReadNode over a parameter.File (model node `R`: odd codes = truncated uploads -> 0 = empty mesh)
 }
 
 func (d *c13Desc) deps() []int {
@@ -195,7 +202,18 @@ func c13GraphString(g []c13Desc) string {
 			b.WriteString(" Q " + itoa(d.def))
 			continue
 		}
-		b.WriteString(" S " + itoa(d.salt) + " " + itoa(len(d.sc)))
+		switch {
+		case d.ident:
+			b.WriteString(" B 0 1 " + itoa(d.sc[0]) + " 0")
+			continue
+		case d.stlrd:
+			b.WriteString(" R 0 1 " + itoa(d.sc[0]) + " 0")
+			continue
+		case d.fail > 0:
+			b.WriteString(" E " + itoa(d.salt) + " " + itoa(d.fail) + " " + itoa(len(d.sc)))
+		default:
+			b.WriteString(" S " + itoa(d.salt) + " " + itoa(len(d.sc)))
+		}
 		for _, s := range d.sc {
 			if s < 0 {
 				b.WriteString(" -")
@@ -355,6 +373,8 @@ type c13Built struct {
 	pars  []int
 	strs  []int // non-producer struct nodes
 	all   []nodes.Node
+	touts []any          // c13_shared.go: typed outputs (NodeOutput[T]) of typed parameters / the stl read node
+	codes map[string]int // c13_shared.go, STL family: bytes (uploads, written artifacts) -> code
 }
 
 func c13Build(g []c13Desc) *c13Built { return c13BuildNamed(g, false) }
@@ -381,7 +401,7 @@ func c13BuildOpt(g []c13Desc, opt c13BuildOptions) *c13Built {
 	if opt.parPrefix == "" {
 		opt.parPrefix = "p"
 	}
-	b := &c13Built{g: g, ids: make([]string, len(g)), names: make([]string, len(g)), outs: make([]c13In, len(g))}
+	b := &c13Built{g: g, ids: make([]string, len(g)), names: make([]string, len(g)), outs: make([]c13In, len(g)), touts: make([]any, len(g)), codes: map[string]int{}}
 	if opt.files == nil {
 		b.inst = graph.New(&refutil.TypeFactory{})
 	}
@@ -415,16 +435,17 @@ func c13BuildOpt(g []c13Desc, opt c13BuildOptions) *c13Built {
 			xs = append(xs, b.outs[x])
 		}
 		switch {
+		case c13BuildSpecial(b, i, d, addProducer, prodName):
 		case d.param:
 			p := &parameter.Value[int]{Name: opt.parPrefix + itoa(i), DefaultValue: d.def}
 			all[i], b.outs[i] = p, p
 			b.pars = append(b.pars, i)
 		case !d.prod && d.hasXs:
-			n := &nodes.Struct[int, c13G41]{Data: c13G41{A: in(d.sc[0]), B: in(d.sc[1]), C: in(d.sc[2]), D: in(d.sc[3]), Xs: xs, salt: d.salt, yield: d.yield}}
+			n := &nodes.Struct[int, c13G41]{Data: c13G41{A: in(d.sc[0]), B: in(d.sc[1]), C: in(d.sc[2]), D: in(d.sc[3]), Xs: xs, salt: d.salt, yield: d.yield, fail: d.fail}}
 			all[i], b.outs[i] = n, n.Out()
 			b.strs = append(b.strs, i)
 		case !d.prod:
-			n := nodes.NewStruct[c13G20, int](c13G20{A: in(d.sc[0]), B: in(d.sc[1]), salt: d.salt, yield: d.yield})
+			n := nodes.NewStruct[c13G20, int](c13G20{A: in(d.sc[0]), B: in(d.sc[1]), salt: d.salt, yield: d.yield, fail: d.fail})
 			all[i], b.outs[i] = n, n
 			b.strs = append(b.strs, i)
 		case d.hasXs:
@@ -934,6 +955,10 @@ func runC13(c *Ctx) {
 	if fixedProcs {
 		c.Note("gomaxprocs-pinned-by-environment=" + itoa(runtime.GOMAXPROCS(0)))
 	}
+	if os.Getenv("C13_ONLY") == "shared" { // debugging aid: only the families of c13_shared.go
+		c13Shared(c, fixedProcs)
+		return
+	}
 	for i := 0; i < c.N; i++ {
 		if i%2 == 0 {
 			c13Seq(c)
@@ -949,6 +974,9 @@ func runC13(c *Ctx) {
 	}
 	// the HTTP families (c13_http.go): the real edit-server handlers
 	c13HTTP(c)
+	// families with shared failing nodes, the real STL chain and typed parameters (c13_shared.go); last, so that
+	// every line above is generated exactly as before
+	c13Shared(c, fixedProcs)
 }
 
 // ---- (c) FILE family: parameter.File + basics.BinaryNode, results held after the call returned ----
